@@ -143,6 +143,45 @@ func c05(c *h.Ctx) {
 	defer amfCheckRetained(c)
 	r := c.R
 
+	// 0a. containers with thousands of elements (every container kind, alone and nested in an object that has further
+	// properties after it): decode(encode v) = v, Size() = bytes produced = bytes consumed. The model executable is
+	// compared up to 5000 elements; beyond that the implementation is checked against the hand-written bytes.
+	{
+		sizes := []int{4097, 70000}
+		if c.Thorough() {
+			sizes = []int{4095, 4096, 4097, 5000, 65535, 65536, 70000, 300000}
+		}
+		for _, n := range sizes {
+			kv := make([]interface{}, 0, 2*n)
+			for i := 0; i < n; i++ {
+				kv = append(kv, fmt.Sprintf("k%d", i), num(uint64(0x4000000000000000)+uint64(i)))
+			}
+			for _, kind := range []byte{'o', 'a', 't'} {
+				inner := container(kind, uint32(n), kv...)
+				for _, nd := range []*anode{inner, container('o', 0, "first", str("x"), "big", inner, "after", num(0x3ff0000000000000))} {
+					v := nd.build()
+					bs, cl := libMarshal(v)
+					id := fmt.Sprintf("container %c of %d elements (nested: %v)", kind, n, nd != inner)
+					if !c.Hold(cl == "ok" && bytes.Equal(bs, nd.wire(nil)) && v.Size() == len(bs), "encode_large", id, fmt.Sprintf("%s, %d bytes, Size()=%d", cl, len(bs), v.Size()), fmt.Sprintf("ok, %d bytes", len(nd.wire(nil)))) {
+						continue
+					}
+					if n <= 5000 && (c.Thorough() || kind == 't') {
+						c05Decodable(c, "large", bs, nd.text(), len(bs))
+					} else {
+						d := libDecode(bs)
+						ok := d.class == "ok" && amfStr(d.val) == nd.text() && d.consumed == len(bs) && d.val.Size() == len(bs)
+						got := d.class
+						if d.class == "ok" {
+							got = fmt.Sprintf("consumed=%d Size()=%d", d.consumed, d.val.Size())
+						}
+						c.Hold(ok, "decode_tree", id, got, fmt.Sprintf("consumed=%d Size()=%d and the same tree", len(bs), len(bs)))
+					}
+					c.Case(fmt.Sprintf("large/%c/%d", kind, n), id, true)
+				}
+			}
+		}
+	}
+
 	// 0. regression corpus: the failing inputs of F5 and F6 (fixed) and their neighbours.
 	for _, hx := range []string{
 		"03000161050001610500000905",                               // F5: object with a repeated key (+ trailing null)
